@@ -251,9 +251,77 @@ pub fn to_felt(v: &BigInt) -> Felt252 {
     Felt252::from(r)
 }
 
-/// A value from the boundary set of [lo, hi], or a random one.
-pub fn pick_in_range(rng: &mut Rng, lo: &BigInt, hi: &BigInt, nonzero: bool) -> BigInt {
+thread_local! {
+    /// Values forced onto the scalar leaves of the next argument vector, by leaf position
+    /// (boundary sweeps); `None` = generate as usual.
+    static FORCED_SCALARS: std::cell::RefCell<Vec<Option<BigInt>>> = const { std::cell::RefCell::new(Vec::new()) };
+    static SCALAR_POS: std::cell::Cell<usize> = const { std::cell::Cell::new(0) };
+}
+
+/// The boundary set used by `pick_in_range`, folded into [lo, hi] and de-duplicated.
+pub fn boundary_candidates(lo: &BigInt, hi: &BigInt) -> Vec<BigInt> {
     let span = hi - lo;
+    let m = &span + 1;
+    let mut seen = std::collections::BTreeSet::new();
+    raw_candidates(lo, hi)
+        .into_iter()
+        .map(|v| if &v < lo || &v > hi { lo + ((v - lo) % &m + &m) % &m } else { v })
+        .filter(|v| seen.insert(v.clone()))
+        .collect()
+}
+
+/// The inclusive ranges of the scalar leaves of the user parameters of `func`, in the order
+/// `gen_args` meets them (struct members flattened; enum payloads, arrays and NonZero skipped).
+pub fn scalar_leaf_ranges(b: &RunnableBuilder, func: &cairo_lang_sierra::program::Function) -> Vec<(BigInt, BigInt)> {
+    fn walk(b: &RunnableBuilder, ty: &ConcreteTypeId, out: &mut Vec<(BigInt, BigInt)>, depth: usize) -> bool {
+        if depth > 8 {
+            return false;
+        }
+        if let Some(r) = int_range(b, ty) {
+            out.push(r);
+            return true;
+        }
+        match generic_name(b, ty).as_str() {
+            "Struct" => type_args(b, ty).iter().all(|t| walk(b, t, out, depth + 1)),
+            "Snapshot" => walk(b, &type_args(b, ty)[0], out, depth + 1),
+            // Position tracking stops at the first leaf whose count depends on random choices.
+            _ => false,
+        }
+    }
+    let mut out = vec![];
+    for p in &func.signature.param_types {
+        let gid = &b.type_long_id(p).generic_id;
+        if !b.is_user_arg_type(gid) {
+            continue;
+        }
+        if !walk(b, p, &mut out, 0) {
+            break;
+        }
+    }
+    out
+}
+
+/// `gen_args` with the scalar leaf at position `pos` forced to `value` (if it lies in the leaf's range).
+pub fn gen_args_forced(
+    b: &RunnableBuilder,
+    func: &cairo_lang_sierra::program::Function,
+    rng: &mut Rng,
+    pos: usize,
+    value: &BigInt,
+) -> Option<(Vec<Arg>, String)> {
+    FORCED_SCALARS.with(|f| {
+        let mut f = f.borrow_mut();
+        f.clear();
+        f.resize(pos + 1, None);
+        f[pos] = Some(value.clone());
+    });
+    SCALAR_POS.with(|p| p.set(0));
+    let r = gen_args(b, func, rng);
+    FORCED_SCALARS.with(|f| f.borrow_mut().clear());
+    r
+}
+
+fn raw_candidates(lo: &BigInt, hi: &BigInt) -> Vec<BigInt> {
     let mut cands: Vec<BigInt> = vec![
         lo.clone(),
         lo + 1,
@@ -274,6 +342,13 @@ pub fn pick_in_range(rng: &mut Rng, lo: &BigInt, hi: &BigInt, nonzero: bool) -> 
         cands.push(&p + 1);
         cands.push(-&p);
     }
+    cands
+}
+
+/// A value from the boundary set of [lo, hi], or a random one.
+pub fn pick_in_range(rng: &mut Rng, lo: &BigInt, hi: &BigInt, nonzero: bool) -> BigInt {
+    let span = hi - lo;
+    let cands = raw_candidates(lo, hi);
     let v = if rng.chance(2, 3) {
         rng.pick(&cands).clone()
     } else {
@@ -314,7 +389,17 @@ pub fn gen_arg(
         if nonzero && lo.is_zero() && hi.is_zero() {
             return None;
         }
-        let v = pick_in_range(rng, &lo, &hi, nonzero);
+        let mut v = pick_in_range(rng, &lo, &hi, nonzero);
+        let pos = SCALAR_POS.with(|p| {
+            let v = p.get();
+            p.set(v + 1);
+            v
+        });
+        if let Some(f) = FORCED_SCALARS.with(|f| f.borrow().get(pos).cloned().flatten()) {
+            if f >= lo && f <= hi && !(nonzero && f.is_zero()) {
+                v = f;
+            }
+        }
         desc.push_str(&format!("{v} "));
         return Some(vec![Arg::Value(to_felt(&v))]);
     }
